@@ -235,9 +235,13 @@ class SymBool:
     __rmul__ = __mul__
 
     def __sub__(self, o):
+        if isinstance(o, (SymBool, bool, np.bool_)):
+            raise TypeError("numpy boolean subtract, the `-` operator, is not supported, use the bitwise_xor, the `^` operator, or the logical_xor function instead.")
         return tf(self) - o
 
     def __rsub__(self, o):
+        if isinstance(o, (SymBool, bool, np.bool_)):
+            raise TypeError("numpy boolean subtract, the `-` operator, is not supported, use the bitwise_xor, the `^` operator, or the logical_xor function instead.")
         return o - tf(self)
 
     def __truediv__(self, o):
@@ -247,7 +251,7 @@ class SymBool:
         return o / tf(self)
 
     def __neg__(self):
-        return -tf(self)
+        raise TypeError("The numpy boolean negative, the `-` operator, is not supported, use the `~` operator or the logical_not function instead.")
 
     def __lt__(self, o):
         return tf(self) < o
@@ -1806,7 +1810,7 @@ def _both_bool(a, b):
 
 
 _mk_arr_op("__add__", lambda a, b: (tb_(a) + tb_(b)) if _both_bool(a, b) else _add(tf(a), tf(b)), "__radd__")
-_mk_arr_op("__sub__", lambda a, b: _sub(tf(a), tf(b)), "__rsub__")
+_mk_arr_op("__sub__", lambda a, b: (tb_(a) - tb_(b)) if _both_bool(a, b) else _sub(tf(a), tf(b)), "__rsub__")
 _mk_arr_op("__mul__", lambda a, b: (tb_(a) * tb_(b)) if _both_bool(a, b) else _mul(tf(a), tf(b)), "__rmul__")
 _mk_arr_op("__truediv__", lambda a, b: _div(tf(a), tf(b)), "__rtruediv__")
 _mk_arr_op("__pow__", lambda a, b: _pow(tf(a), tf(b)), "__rpow__")
@@ -2014,10 +2018,10 @@ TABLE = {
     "fmax": _lift(_fmax), "fmin": _lift(_fmin),
     "sqrt": _lift(_sqrt), "square": _lift(lambda a: _mul(tf(a), tf(a))),
     "absolute": _lift(lambda a: _abs(tf(a))), "fabs": _lift(lambda a: _abs(tf(a))), "abs": _lift(lambda a: _abs(tf(a))),
-    "negative": _lift(lambda a: _neg(tf(a))), "positive": _lift(lambda a: tf(a)),
+    "negative": _lift(lambda a: -a if isinstance(a, SymBool) else _neg(tf(a))), "positive": _lift(lambda a: tf(a)),
     "multiply": _lift(lambda a, b: (tb_(a) * tb_(b)) if _both_bool(a, b) else _mul(tf(a), tf(b))),
     "add": _lift(lambda a, b: (tb_(a) + tb_(b)) if _both_bool(a, b) else _add(tf(a), tf(b))),
-    "subtract": _lift(lambda a, b: _sub(tf(a), tf(b))),
+    "subtract": _lift(lambda a, b: (tb_(a) - tb_(b)) if _both_bool(a, b) else _sub(tf(a), tf(b))),
     "true_divide": _lift(lambda a, b: _div(tf(a), tf(b))), "divide": _lift(lambda a, b: _div(tf(a), tf(b))),
     "power": _lift(lambda a, b: _pow(tf(a), tf(b))), "float_power": _lift(lambda a, b: _pow(tf(a), tf(b))),
     "remainder": _lift(_remainder), "mod": _lift(_remainder), "fmod": _lift(_fmod),
